@@ -369,11 +369,16 @@ def _check_all_uses_replaceable(
     """Raise if replace_all_uses_with would reject any pair, without modifying anything."""
     if len(values) != len(replacements):
         raise ValueError("The number of values and replacements must match.")
-    new_output_owner: dict[int, _core.Graph] = {}
+    # The pairs are applied in order: judge each one on the ownership the earlier ones will have left
+    is_output: dict[int, bool] = {}
+    owner: dict[int, _core.Graph | None] = {}
+    for value in (*values, *replacements):
+        is_output[id(value)] = value.is_graph_output()
+        owner[id(value)] = value._graph  # pylint: disable=protected-access
     for value, replacement in zip(values, replacements):
-        if not value.is_graph_output():
+        if not is_output[id(value)]:
             continue
-        graph = value.graph
+        graph = owner[id(value)]
         assert graph is not None
         if not replace_graph_outputs:
             raise ValueError(
@@ -381,12 +386,20 @@ def _check_all_uses_replaceable(
                 "Set replace_graph_outputs=True or replace the graph output frist before "
                 "calling replace_all_uses_with."
             )
-        graph.outputs._check_graph(replacement)  # pylint: disable=protected-access
-        if new_output_owner.setdefault(id(replacement), graph) is not graph:
+        if value is replacement:
+            continue
+        replacement_owner = owner[id(replacement)]
+        if replacement_owner is not None and replacement_owner is not graph:
             raise ValueError(
-                f"{replacement!r} cannot replace outputs of two different graphs "
-                f"({new_output_owner[id(replacement)].name!r} and {graph.name!r})."
+                f"{replacement!r} cannot replace {value!r} as an output of graph {graph.name!r}: "
+                f"it is owned by graph {replacement_owner.name!r}. "
+                "Please remove the value from the previous graph first."
             )
+        is_output[id(replacement)] = True
+        owner[id(replacement)] = graph
+        is_output[id(value)] = False
+        if not (value.is_graph_input() or value.is_initializer()):
+            owner[id(value)] = None
 
 
 def rename_values(
